@@ -33,7 +33,7 @@ def _bounded0(check):
     except ValueError:
         info = {"error": (p.stderr or p.stdout)[-400:]}
     out = dict(name="allow_file / allow_command == the deny rule; a path whose real location is outside the root is refused", level="bounded",
-               bound="deny lists of <= 2 entries (length <= 3) x candidates up to length %d over {a, b, space, /}; 11 layouts + a root that is a symbolic link re-pointed between two providers ('..', sibling sharing the "
+               bound="deny lists of <= 2 entries (length <= 3) x candidates up to length %d over {a, b, space, /}; 11 layouts + a root that is a symbolic link re-pointed between two providers + a scanned-archive context whose entry became a link leaving the root ('..', sibling sharing the "
                      "root's prefix, absolute / relative / directory symlinks)" % n,
                result=info, violation=(p.returncode == 1), error=(p.returncode not in (0, 1)))
     if p.returncode == 1:
